@@ -36,11 +36,14 @@ def confirm(src):
         m = re.search(r"(\d+) passed", out)
         res["suite"] = out.strip().splitlines()[-1]
         res["suite_green"] = rc == 0 and m is not None and int(m.group(1)) == 976
-        shutil.copy(os.path.join(src, "demo.py"), os.path.join(wt, "_demo.py"))
-        rc, out = sh("%s _demo.py" % PY, cwd=wt, timeout=600)
+        # one directory below the root, as the authors ran it (some demos find the root from __file__), root on the path
+        os.makedirs(os.path.join(wt, "_m"), exist_ok=True)
+        shutil.copy(os.path.join(src, "demo.py"), os.path.join(wt, "_m", "demo.py"))
+        denv = dict(os.environ, PYTHONPATH=wt)
+        rc, out = sh("%s _m/demo.py" % PY, cwd=wt, timeout=600, env=denv)
         res["demo_with"] = rc
         sh("git checkout -- flumine", cwd=wt)
-        rc, out = sh("%s _demo.py" % PY, cwd=wt, timeout=600)
+        rc, out = sh("%s _m/demo.py" % PY, cwd=wt, timeout=600, env=denv)
         res["demo_without"] = rc
     finally:
         sh("git -C /repo worktree remove --force %s" % wt)
